@@ -22,6 +22,8 @@ def family(prog, name, tier, taint_mode):
         return AR.selection_order_cases(prog, "concrete")
     if name == "misc":
         return AR.misc_index_cases(prog, taint_mode)
+    if name == "patterns":
+        return AR.pattern_mix_cases(prog, "concrete")
     raise KeyError(name)
 
 
@@ -31,11 +33,11 @@ def run(prog, rep):
     rep.rule("C06.refusals", "slices, unknown / ambiguous items, non-subset Dimensions, list reads are refused")
     rep.rule("C06.split", "split reports each part under its true item")
     aspects = {("getitem", "result"): "C06.read-region", ("setitem", "result"): "C06.write-region",
-               ("getitem", "raises"): "C06.refusals", ("getitem-illformed", "raises"): "C06.refusals",
+               ("getitem", "raises"): "C06.refusals", ("getitem-illformed", "raises"): "C06.refusals", ("setitem-illformed", "raises"): "C06.refusals",
                ("split", "result"): "C06.split", ("stack", "result"): "C06.write-region"}
     prog.cls("SubArrayHandler")
     prog.method("FlodymArray", "__getitem__")
-    run_array_property(prog, rep, "C06", ["index", "orders", "misc", "index@uniform", "misc@uniform"], aspects)
+    run_array_property(prog, rep, "C06", ["index", "orders", "misc", "patterns", "index@uniform", "misc@uniform"], aspects)
     rep.rules["C06.read-region"]["floor"] = 85 if rep.tier == "quick" else 1365
     rep.rules["C06.write-region"]["floor"] = 85 if rep.tier == "quick" else 1365
     if rep.exhaustive is None:
